@@ -46,6 +46,9 @@ func init() {
 	gen.RegisterOp("c02", "e2e-f31", func(c *gen.Ctx, raw json.RawMessage) any {
 		return c02E2E(c, gen.Into[c02E2EIn](raw))
 	})
+	gen.RegisterOp("c02", "e2e-f34", func(c *gen.Ctx, raw json.RawMessage) any {
+		return c02E2E(c, gen.Into[c02E2EIn](raw))
+	})
 	gen.RegisterOp("c02", "populate", func(_ *gen.Ctx, raw json.RawMessage) any {
 		return c02Populate(gen.Into[c02PopIn](raw))
 	})
@@ -1806,8 +1809,49 @@ func runC02(c *gen.Ctx) error {
 	f31.GetCases = append(f31.GetCases, post)
 	ins = append(ins, f07, f27, f31)
 	opsOf = append(opsOf, "e2e-f07", "e2e-f27", "e2e-f31")
+	// known finding F34: an error message that begins / ends with a SPACE loses it under gRPC-Web (the
+	// trailer block travels in the body as header lines; 0x20 is not percent-encoded in grpc-message and
+	// optional white space around a field value is dropped on decoding): one fixed scenario per run —
+	// the message with the boundary spaces next to controls (the same text without them; boundary TABS,
+	// which are percent-encoded) on an immediate unary error and on a server stream that fails after a
+	// response; only that symptom may appear, only on gRPC-Web permutations of the boundary-space cases.
+	// quick: mode client (wrapped reference client: the message comparison fails); thorough also mode
+	// both (reference-mode client: its wire check reports grpc-message != grpc-status-details-bin)
+	f34Modes := []string{"client"}
+	if c.Thorough() {
+		f34Modes = append(f34Modes, "both")
+	}
+	for _, mode := range f34Modes {
+		ins = append(ins, c02F34In(mode))
+		opsOf = append(opsOf, "e2e-f34")
+	}
 	c.DoParallelOps(opsOf, ins, 4)
 	return nil
+}
+
+// c02F34Msg is the message of known finding F34 (plain ASCII: Go's %q of it is the text in quotes)
+const c02F34Msg = " lead and trail "
+
+func c02F34In(mode string) c02E2EIn {
+	mk := func(st string, nResp int, msg string) c02TC {
+		m := msg
+		d := c02Def{Hdrs: []c02Hdr{{N: "x-hdr-f34", V: []string{"v1"}}}, Trls: []c02Hdr{{N: "x-trl-f34", V: []string{"t1"}}}, Data: []string{},
+			Err: &c02Err{Code: 9, Msg: &m, Details: []int{}}}
+		if st == "unary" {
+			d.Kind = "error"
+		} else {
+			d.Kind = "stream"
+			for i := 0; i < nResp; i++ {
+				d.Data = append(d.Data, "aa")
+			}
+		}
+		return c02TC{St: st, ReqHdrs: []c02Hdr{}, Reqs: []int{101}, HasDef: true, Def: d}
+	}
+	in := c02E2EIn{Mode: mode, Versions: []int{1, 2}, Protos: []int{1, 2, 3}, Codecs: []int{1}, Comps: []int{1}, NoRerun: true}
+	for _, msg := range []string{c02F34Msg, strings.TrimSpace(c02F34Msg), "\tlead and trail\t"} {
+		in.Cases = append(in.Cases, mk("unary", 0, msg), mk("serverStream", 1, msg))
+	}
+	return in
 }
 
 // ---- generator of suite shapes for the load op ----
